@@ -145,13 +145,26 @@ class Splitter:
         def _is_escaped():
             return currently_quote_escaped or num_open_curls > 0
 
+        # Curly brackets opened (and not yet closed) within a quoted value.
+        #   A quote within such brackets does not end the quoted value.
+        num_open_curls_in_quote = 0
+
         # iterate over marks until we find end of field
         while True:
             next_mark = self._next_mark(accept_eof=False)
 
             # Handle "escape" characters
+            if currently_quote_escaped and next_mark.group(0) == "{":
+                num_open_curls_in_quote += 1
+                continue
+            elif currently_quote_escaped and num_open_curls_in_quote > 0:
+                if next_mark.group(0) == "}":
+                    num_open_curls_in_quote -= 1
+                if not next_mark.group(0).startswith("@"):
+                    continue
             if next_mark.group(0) == '"' and not num_open_curls > 0:
                 currently_quote_escaped = not currently_quote_escaped
+                num_open_curls_in_quote = 0
                 continue
             elif next_mark.group(0) == "{" and not currently_quote_escaped:
                 num_open_curls += 1
